@@ -307,6 +307,15 @@ impl<'tcx> Cx<'tcx> {
                 return Some(obj(vec![("k", s("int")), ("v", s(v.to_string())),
                                      ("bits", n(size.bits())), ("ty", tyj)]));
             }
+            ConstValue::Scalar(rustc_middle::mir::interpret::Scalar::Ptr(ptr, _)) if matches!(ty.kind(), ty::TyKind::FnPtr(..)) => {
+                // a function pointer stored in a constant: name the function it points to
+                let (prov, _off) = ptr.into_raw_parts();
+                if let Some(rustc_middle::mir::interpret::GlobalAlloc::Function { instance }) = tcx.try_get_global_alloc(prov.alloc_id()) {
+                    let callee = self.resolve(instance.def_id(), instance.args);
+                    return Some(obj(vec![("k", s("fn")), ("callee", callee), ("ty", tyj)]));
+                }
+                return None;
+            }
             ConstValue::ZeroSized => return Some(obj(vec![("k", s("zst")), ("ty", tyj)])),
             ConstValue::Slice { .. } => {
                 if let Some(bytes) = val.try_get_slice_bytes_for_diagnostics(tcx) {
@@ -727,8 +736,14 @@ impl<'tcx> Cx<'tcx> {
                     };
                     let aj: Vec<J> =
                         args.iter().map(|a| self.operand(owner, body, &a.node)).collect();
+                    // an indirect call (through a fn pointer): the operand that holds the pointer
+                    let fop = match fty.kind() {
+                        ty::TyKind::FnDef(..) => J::Null,
+                        _ => self.operand(owner, body, func),
+                    };
                     obj(vec![
                         ("k", s("call")),
+                        ("fn_operand", fop),
                         ("callee", callee),
                         ("args", J::Arr(aj)),
                         ("dest", self.place(destination)),
